@@ -38,7 +38,7 @@ Oracle boundaries (cases the statement leaves open are removed or every reading 
 * merging onto an untyped element, and schema fragments beyond the five plain types (enum, minimum, ...):
   type atom "opaque", no reference-definition verdict (the jsonschema reference still applies);
 * stale entries of ``to_namespaced`` / ``from_namespaced`` after the namespaced element was deleted or renamed
-  are counted (``ns_entries_without_element``), not flagged: the statement only speaks of required names and
+  are made visible as the outcome class ``<op>:ns-entry-without-element``, not flagged: the statement only speaks of required names and
   defaults; fidelity of the *types* chosen by ``to_simple_grammar`` ("number" -> ``complex``) is not judged;
 * renaming onto an existing name is undefined and not in the alphabet.
 """
@@ -340,10 +340,6 @@ class St:
         return [(c, self.gs[c]) for c in CLASSES if self.gs.get(c) is not None]
 
 
-class Unexpected(Exception):
-    pass
-
-
 def _schemas(names):
     a, b, c, _ = names
     s1 = {"$schema": DRAFT4, "type": "object", "properties": {a: {"type": "integer"}, c: {"type": "string"}}, "required": [a]}
@@ -642,8 +638,6 @@ class Spec:
                 st.shadows.append((f"update-source:{op[1]}", cls, info.pop("other"), None))
         if k == "copy":
             st.is_copy = True
-        if k in ("clear",):
-            pass
         # the reference definition follows the primary; an unexpected exception of the primary freezes it
         if not expect_refusal and primary not in last["raised"]:
             self._model_do(st.model, op, st)
@@ -960,14 +954,10 @@ def _flat(c):
 
 
 # ------------------------------------------------------------------------------------------------------
-def _spec(ctx, starts):
-    return Spec(ctx.pick(NAME_TABLES), ctx.pick(VALUE_TABLES), ctx.scratch, starts)
-
-
 def run(ctx):
     names, values = ctx.pick(NAME_TABLES), ctx.pick(VALUE_TABLES)
     depth = 4 if ctx.thorough else 3
-    fdepth = 2
+    fdepth = 2 if ctx.thorough else 1
     pdepth = 4 if ctx.thorough else 2
     files = shipped_files()
     info = {}
@@ -975,14 +965,16 @@ def run(ctx):
         spec = Spec(names, values, ctx.scratch, [["start", "empty", {"names": list(names), "values": values}]])
         info["empty"] = explore.bfs(spec, depth, ctx.tally, jobs=ctx.jobs)
     if not ctx.only or ctx.only == "files":
-        spec = Spec(names, values, ctx.scratch, [["start", "file", f, values] for f in files])
+        # one level deeper from six structurally different shipped schemas (enum/minimum/format without required
+        # names; array + number; optional + required arrays; nested ids with min/maxItems; untyped arrays; minItems 1);
+        # the other files to depth ``fdepth``
+        deep = [f for f in files if Path(f).name in DEEP_FILES]
+        spec = Spec(names, values, ctx.scratch, [["start", "file", f, values] for f in files if f not in deep])
         info["files"] = explore.bfs(spec, fdepth, ctx.tally, jobs=ctx.jobs)
-        if ctx.thorough:
-            # one level deeper from six structurally different shipped schemas (enum/minimum/format without required
-            # names; array + number; optional + required arrays; nested ids with min/maxItems; untyped arrays; minItems 1)
-            deep = [f for f in files if Path(f).name in DEEP_FILES]
+        if deep:
             spec3 = Spec(names, values, ctx.scratch, [["start", "file", f, values] for f in deep])
             info["files_deep"] = {"files": deep, **explore.bfs(spec3, fdepth + 1, ctx.tally, jobs=ctx.jobs)}
+        spec = Spec(names, values, ctx.scratch, [["start", "file", f, values] for f in files])
         # how often the reference verdict had to be left out because JSON-schema drafts disagree (oracle boundary)
         skips = 0
         for tok in spec.starts():
@@ -1001,13 +993,13 @@ def run(ctx):
         "JSON schema file and from a PydanticGrammar on a user model with a default (shallower bounds); a history is non-trivial when an edit follows a cache-filling query "
         "(validate/schema/to_json/to_simple_grammar), a copy or a pickle round-trip; distinct = distinct operation histories",
         "exhaustive": True,
-        "bounds": {"depth": depth, "depth_from_shipped_files": fdepth, "depth_from_pydantic_user_model": pdepth, "names": list(names), **info},
+        "bounds": {"depth": depth, "depth_from_shipped_files": fdepth, "depth_from_six_shipped_files": fdepth + 1, "depth_from_pydantic_user_model": pdepth, "names": list(names), **info},
         "assumptions": [
             "value alphabet: 1-D float arrays with at least two components, one int, one non-integral float, one string, one nested mapping (3 tables rotated by VERIF_SEED); no booleans, integral floats, lists, complex or 2-D arrays",
             "an int against a float element is judged per class and excluded from the JSON/Simple agreement",
             "requiredness of an element that is required in the grammar and optional in the update source is adopted from the implementation",
             "a follower grammar (Simple, Pydantic) is dropped from the first operation whose meaning it does not share (merge, update_from_schema/file; for pydantic also required-name edits, untyped elements and sources with optional elements)",
-            "stale namespace-map entries after deleting/renaming a namespaced element are counted, not flagged",
+            "stale namespace-map entries after deleting/renaming a namespaced element are reported as an outcome class, not flagged",
             "states merged on a canonical form including the cached schema dict, validator presence and the genson builder's own required set",
         ],
     }
